@@ -168,7 +168,9 @@ func (b *Buffer) SetCleanerConfig(config CleanerConfig) error {
 	b.mutex.Lock()
 	defer b.mutex.Unlock()
 
-	b.cleaner = &config
+	// overwrite the existing config in place (b.ensure guarantees it is set), rather than replacing the pointer: the
+	// pointer itself is read without the lock by b.ensure's double-checked init, at the start of every other call
+	*b.cleaner = config
 
 	return nil
 }
